@@ -120,6 +120,8 @@ fn main() {
     }
     let sep = toks.iter().position(|t| *t == ";;").expect(";;");
     let mut handles: Vec<(usize, H)> = Vec::new();
+    let mut spare_g: Vec<reload::Handle<BoxS>> = Vec::new();
+    let mut spare_f: Vec<reload::Handle<BoxF>> = Vec::new();
     let d = build_stack(&toks[..sep], &mut handles);
     let mut guard = Some(tracing::dispatch::set_default(&d));
     let mut workers: Vec<(Sender<Cmd>, Receiver<()>, std::thread::JoinHandle<()>)> = Vec::new();
@@ -149,9 +151,11 @@ fn main() {
             }
             "rl" => {
                 let h: usize = op[1].parse().unwrap();
+                // (every second reload goes through a CLONE of the handle, made for the occasion and kept alive: a handle is a
+                //  handle, however many of them there are)
                 let r = match &handles.iter().find(|(k, _)| *k == h).expect("handle").1 {
-                    H::G(handle) => handle.reload(build_global(op[2])).is_ok(),
-                    H::F(handle) => { let mut p = 0; handle.reload(build(&op[2..], &mut p)).is_ok() }
+                    H::G(handle) => { let hc = handle.clone(); let r = if op.len() % 2 == 0 { hc.reload(build_global(op[2])).is_ok() } else { handle.reload(build_global(op[2])).is_ok() }; spare_g.push(hc); r }
+                    H::F(handle) => { let mut p = 0; let hc = handle.clone(); let v = build(&op[2..], &mut p); let r = if toks.len() % 2 == 0 { hc.reload(v).is_ok() } else { handle.reload(v).is_ok() }; spare_f.push(hc); r }
                 };
                 outs.push(format!("r:{}", if r { "ok" } else { "err" }));
             }
